@@ -1149,10 +1149,11 @@ func stepApply(o *Out, c *typCtx, up *merge.Updater, ig ignoreCfg, st *updState,
 			}
 			if !st.conv.degraded() {
 				_, hadRecord := pre[mgr]
-				if ig.kind != "none" && (hadRecord || st.tainted) && strings.Contains(err.Error(), "omits key field") {
-					// finding D8 in its hardest form: under an ignore configuration the re-apply prunes a key
-					// field the applier's previous record held (the ignored fields of the item stay), the
-					// item loses its key and the apply itself fails on the mutilated object
+				if ig.kind != "none" && (hadRecord || st.tainted) && strings.Contains(err.Error(), "failed to compare objects") {
+					// finding D8 in its hardest form: under an ignore configuration the re-apply prunes an item of
+					// which a key field is ignored or kept apart from the rest (the item loses its key, or is
+					// left as a null element) and the apply itself fails on the mutilated object ("failed to
+					// compare objects: … omits key field" / "… may not have a null element")
 					st.tainted = true
 					o.Fail("C19", "live-object-valid-under-ignore", err.Error(), "live-object-valid-under-ignore/D8-prune-under-ignore-configuration "+op, op)
 				} else {
